@@ -53,14 +53,42 @@ def build(pkg, work, race):
     return out
 
 
+MEM_LIMIT_KB = int(os.environ.get("VERIF_MEM_KB", str(5 * 1024 * 1024)))  # per test process
+
+
+def rss_kb(pid):
+    try:
+        for line in open("/proc/%d/status" % pid):
+            if line.startswith("VmRSS:"):
+                return int(line.split()[1])
+    except Exception:
+        pass
+    return 0
+
+
 def run_proc(binp, args, env, log, timeout):
+    """Runs one test process under a wall-clock limit and a resident-memory watchdog
+    (returns -999 on time-out, -998 when the memory limit was exceeded)."""
     t0 = time.time()
     with open(log, "w") as f:
-        try:
-            p = subprocess.run([binp] + args, cwd=os.path.dirname(binp), env=env, stdout=f, stderr=subprocess.STDOUT, timeout=timeout + 60)
-            rc = p.returncode
-        except subprocess.TimeoutExpired:
-            rc = -999
+        p = subprocess.Popen([binp] + args, cwd=os.path.dirname(binp), env=env, stdout=f, stderr=subprocess.STDOUT)
+        rc = None
+        while True:
+            try:
+                rc = p.wait(timeout=1.0)
+                break
+            except subprocess.TimeoutExpired:
+                pass
+            if time.time() - t0 > timeout + 60:
+                p.kill()
+                p.wait()
+                rc = -999
+                break
+            if rss_kb(p.pid) > MEM_LIMIT_KB:
+                p.kill()
+                p.wait()
+                rc = -998
+                break
     return rc, time.time() - t0
 
 
@@ -186,6 +214,10 @@ def run(a, pid, tier, cfg, pi, work, t0):
             continue
         # non-zero exit
         mine = [v for v in merged["violations"]]
+        if rc == -998:
+            notes.append("%s shard %s: killed after exceeding the memory limit of %d MB (inconclusive)" % (j["test"], j["shard"], MEM_LIMIT_KB // 1024))
+            status = max(status, 2)
+            continue
         if rc == -999 or "panic: test timed out" in log:
             notes.append("%s shard %s: timed out (inconclusive)" % (j["test"], j["shard"]))
             keep = os.path.join(VERIF, "replays", pid)
